@@ -6,6 +6,6 @@ CONSTANTS
   AcceptTimeout = 5
 INIT Init
 NEXT Next
-INVARIANTS GenuineQuorum HonestQuorumAccepted HintIsVerdict
+INVARIANTS GenuineQuorum HonestQuorumAccepted HintIsVerdict PayloadBound
 POSTCONDITION WriteCases
 CHECK_DEADLOCK FALSE
